@@ -95,6 +95,18 @@ theorem TrAt.evsNew {m : S σ α} {s : St σ} {P : SRes α → List Event → Pr
   rcases h with ⟨evs, h1, _, _, h4⟩
   rw [evsNew_of_eq h1]; exact h4
 
+/-- Two facts about the same run can be combined (the events added are determined by the run). -/
+theorem Tr.and {m : S σ α} {P Q : SRes α → List Event → Prop} (hp : Tr m P) (hq : Tr m Q) :
+    Tr m (fun r evs => P r evs ∧ Q r evs) := by
+  intro s
+  obtain ⟨e1, h1, h2, h3, h4⟩ := hp s
+  obtain ⟨e2, g1, _, _, g4⟩ := hq s
+  have : e1 = e2 := by
+    have := h1.symm.trans g1
+    exact List.reverse_inj.mp (List.append_cancel_right this)
+  subst this
+  exact ⟨e1, h1, h2, h3, h4, g4⟩
+
 /-! ### Chunk-local properties of the event log -/
 
 /-- A property of event lists that holds of the empty list and of every single event that is
